@@ -205,8 +205,33 @@ def ddmin(items: list, test: Callable[[list], bool], budget_end: float) -> list:
     return cur
 
 
+def minimise_pair(sess: Session, desc: dict, res: dict, v: dict, budget_s: float):
+    """Pair-shaped cases (C13): simplify both runs together; no schedule ddmin (the schedule is a hidden source)."""
+    end = time.monotonic() + budget_s
+    cls = vclass(v)
+    log: list[str] = []
+    best, best_res, best_v = desc, res, v
+    progress = True
+    while progress and time.monotonic() < end:
+        progress = False
+        for what, cand_pair in sess.mod.pair_simplifications(best["pair"]):
+            if time.monotonic() > end:
+                break
+            r = sess.mod.run_pair(sess, cand_pair)
+            vv = has_class(r, cls)
+            if vv is not None:
+                best = {"pair": cand_pair, "config": cand_pair[0]["config"], "index": desc.get("index")}
+                best_res, best_v = r, vv
+                log.append(what)
+                progress = True
+                break
+    return best, None, best_res, best_v, log
+
+
 def minimise(sess: Session, desc: dict, res: dict, v: dict, budget_s: float) -> tuple[dict, list, dict, dict, list[str]]:
     """-> (desc, deviations, result, violation, log)"""
+    if "pair" in desc:
+        return minimise_pair(sess, desc, res, v, budget_s)
     end = time.monotonic() + budget_s
     cls = vclass(v)
     log: list[str] = []
@@ -272,7 +297,14 @@ def write_replay(prop: str, desc: dict, devs, res: dict, v: dict, log: list[str]
 def replay_file(sess: Session, path: str, show: bool = True) -> tuple[bool, dict]:
     body = json.load(open(path))
     devs = body.get("deviations")
-    res = sess.one(body["desc"], deviations=devs, want=("events", "wire", "trace"), fresh=True)
+    if "pair" in body["desc"]:
+        fresh = Session(sess.mod, sess.tier, sess.seed)  # separately started interpreters per hash seed
+        try:
+            res = sess.mod.run_pair(fresh, body["desc"]["pair"])
+        finally:
+            fresh.close()
+    else:
+        res = sess.one(body["desc"], deviations=devs, want=("events", "wire", "trace"), fresh=True)
     same_rule = any(
         v["rule"] == body["rule"] and v.get("signature", {}).get("what") == body["signature"].get("what")
         for v in res.get("violations", []) or []
